@@ -296,7 +296,7 @@ func (svc *service) publish(msg *message.PublishMessage, onComplete OnCompleteFu
 	// call gets to run again, and would otherwise find nothing to complete.
 	switch msg.QoS() {
 	case message.QosAtLeastOnce:
-		if err := assignPacketID(msg); err != nil {
+		if err := svc.assignPacketID(msg); err != nil {
 			return err
 		}
 		if err := svc.sess.Pub1ack.Wait(msg, onComplete); err != nil {
@@ -304,7 +304,7 @@ func (svc *service) publish(msg *message.PublishMessage, onComplete OnCompleteFu
 		}
 
 	case message.QosExactlyOnce:
-		if err := assignPacketID(msg); err != nil {
+		if err := svc.assignPacketID(msg); err != nil {
 			return err
 		}
 		if err := svc.sess.Pub2out.Wait(msg, onComplete); err != nil {
@@ -398,7 +398,7 @@ func (svc *service) subscribe(msg *message.SubscribeMessage, onComplete OnComple
 	}
 
 	// Register first, then send (see publish).
-	if err := assignPacketID(msg); err != nil {
+	if err := svc.assignPacketID(msg); err != nil {
 		return err
 	}
 	if err := svc.sess.Suback.Wait(msg, onc); err != nil {
@@ -469,7 +469,7 @@ func (svc *service) unsubscribe(msg *message.UnsubscribeMessage, onComplete OnCo
 	}
 
 	// Register first, then send (see publish).
-	if err := assignPacketID(msg); err != nil {
+	if err := svc.assignPacketID(msg); err != nil {
 		return err
 	}
 	if err := svc.sess.Unsuback.Wait(msg, onc); err != nil {
@@ -503,17 +503,24 @@ func (svc *service) ping(onComplete OnCompleteFunc) error {
 }
 
 // assignPacketID makes sure msg carries its packet ID before it is registered in
-// an ack queue: a message without one gets it assigned when it is encoded.
-func assignPacketID(msg message.Message) error {
+// an ack queue. A message without one is numbered from this connection's own
+// sequence: the numbering done by Encode is shared by all connections of the
+// process, so requests of other connections could bring it round to an ID that
+// is still unacknowledged here.
+func (svc *service) assignPacketID(msg message.Message) error {
 	if msg.PacketID() != 0 {
+		return nil
+	}
+	if m, ok := msg.(interface{ SetPacketID(uint16) }); ok {
+		m.SetPacketID(svc.nextPacketID())
 		return nil
 	}
 	_, err := msg.Encode(make([]byte, msg.Len()))
 	return err
 }
 
-// nextPacketID returns the packet ID for the next message the server sends on
-// this connection.
+// nextPacketID returns the next automatically assigned packet ID of this
+// connection.
 func (svc *service) nextPacketID() uint16 {
 	for {
 		if id := uint16(atomic.AddUint32(&svc.pid, 1)); id != 0 {
